@@ -224,6 +224,14 @@ def _from_mono(k: Fraction, f: dict) -> T:
     for fac, e in f.items():
         if e == 0:
             continue
+        if fac.op == "add":
+            # canonical sign of a sum used as a factor: leading coefficient positive ((t - x)*a and -(x - t)*a coincide)
+            c0, coefs = fac.val
+            lead = coefs[0] if coefs else c0
+            if lead < 0:
+                fac = neg(fac)
+                if e % 2:
+                    k = -k
         if fac.op == "named" and fac.val == "SQRT2":
             q, r = divmod(e, 2)
             k *= Fraction(2) ** q
